@@ -254,8 +254,10 @@ class PolarGradient(ProjectedGradient):
             if isinstance(center, (tuple, list)):
                 center = snp.array(center)
             center = center.astype(real_input_dtype)
-        end = snp.array(axes_shape, dtype=real_input_dtype) - center
-        g0, g1 = snp.ogrid[-center[0] : end[0], -center[1] : end[1]]
+        # Sample positions relative to the center. (A float-valued range, ogrid[-c : n - c], can
+        # have n + 1 samples because of rounding.)
+        g0 = snp.arange(axes_shape[0], dtype=real_input_dtype).reshape(-1, 1) - center[0]
+        g1 = snp.arange(axes_shape[1], dtype=real_input_dtype).reshape(1, -1) - center[1]
         theta = snp.arctan2(g0, g1)
         # Re-order theta axes in case indices in axes parameter are not in increasing order.
         axis_order = np.argsort(axes)
@@ -361,8 +363,10 @@ class CylindricalGradient(ProjectedGradient):
             if isinstance(center, (tuple, list)):
                 center = snp.array(center)
             center = center.astype(real_input_dtype)
-        end = snp.array(axes_shape, dtype=real_input_dtype) - center
-        g0, g1 = snp.ogrid[-center[0] : end[0], -center[1] : end[1]]
+        # Sample positions relative to the center. (A float-valued range, ogrid[-c : n - c], can
+        # have n + 1 samples because of rounding.)
+        g0 = snp.arange(axes_shape[0], dtype=real_input_dtype).reshape(-1, 1) - center[0]
+        g1 = snp.arange(axes_shape[1], dtype=real_input_dtype).reshape(1, -1) - center[1]
         g0 = g0[..., np.newaxis]
         g1 = g1[..., np.newaxis]
         theta = snp.arctan2(g0, g1)
@@ -486,8 +490,11 @@ class SphericalGradient(ProjectedGradient):
             if isinstance(center, (tuple, list)):
                 center = snp.array(center)
             center = center.astype(real_input_dtype)
-        end = snp.array(axes_shape, dtype=real_input_dtype) - center
-        g0, g1, g2 = snp.ogrid[-center[0] : end[0], -center[1] : end[1], -center[2] : end[2]]
+        # Sample positions relative to the center. (A float-valued range, ogrid[-c : n - c], can
+        # have n + 1 samples because of rounding.)
+        g0 = snp.arange(axes_shape[0], dtype=real_input_dtype).reshape(-1, 1, 1) - center[0]
+        g1 = snp.arange(axes_shape[1], dtype=real_input_dtype).reshape(1, -1, 1) - center[1]
+        g2 = snp.arange(axes_shape[2], dtype=real_input_dtype).reshape(1, 1, -1) - center[2]
         theta = snp.arctan2(g1, g0)
         phi = snp.arctan2(snp.sqrt(g0**2 + g1**2), g2)
         # Re-order theta and phi axes in case indices in axes parameter are not in
